@@ -255,11 +255,20 @@ def run_case(case, tier="quick", src_root=None):
     # guard against vacuity, not correctness
     seen = set()
     n_sample = 0
+    seen_vc = set()
+    rec["duplicate_vcs"] = 0
     for ob in cx.obligations:
         if ob.expect == "sat":
             if ob.name in seen:
                 continue
             seen.add(ob.name)
+        else:
+            # the same VC reached along several paths (shared prefix) is one obligation
+            key = (ob.name, ob.goal.get_id(), tuple(h.get_id() for h in ob.hyps))
+            if key in seen_vc:
+                rec["duplicate_vcs"] += 1
+                continue
+            seen_vc.add(key)
         solve.discharge(ob, timeout)
         o = {"name": ob.name, "kind": ob.kind, "path": ob.path, "verdict": ob.verdict,
              "backend": ob.backend, "time": round(ob.time, 4), "info": ob.info,
